@@ -31,7 +31,14 @@ func (s *Server) HandleBefore(
 		}
 	}
 
-	blocked, _ := s.IsBlockedClient(pctx.Addr.Addr(), clientID)
+	// Take both the client and the host verdicts from the same access
+	// settings, so that a request cannot pass the client check of the previous
+	// settings and the host check of the ones that have replaced them.
+	s.serverLock.RLock()
+	access := s.access
+	s.serverLock.RUnlock()
+
+	blocked, _ := access.isBlockedClient(pctx.Addr.Addr(), clientID)
 	if blocked {
 		return s.preBlockedResponse(pctx)
 	}
@@ -40,7 +47,7 @@ func (s *Server) HandleBefore(
 		q := pctx.Req.Question[0]
 		qt := q.Qtype
 		host := aghnet.NormalizeDomain(q.Name)
-		if s.isBlockedHost(host, qt) {
+		if access.isBlockedHost(host, qt) {
 			log.Debug("access: request %s %s is in access blocklist", dns.Type(qt), host)
 
 			return s.preBlockedResponse(pctx)
@@ -70,15 +77,6 @@ func (s *Server) cacheClientID(p *proxy.Proxy, reqID uint64, clientID string) {
 	key := [8]byte{}
 	binary.BigEndian.PutUint64(key[:], reqID)
 	s.clientIDCache.Set(key[:], []byte(clientID))
-}
-
-// isBlockedHost returns true if the host is blocked by the current access
-// settings.  It is safe for concurrent use.
-func (s *Server) isBlockedHost(host string, qt uint16) (ok bool) {
-	s.serverLock.RLock()
-	defer s.serverLock.RUnlock()
-
-	return s.access.isBlockedHost(host, qt)
 }
 
 // clientIDFromDNSContext extracts the client's ID from the server name of the
